@@ -64,6 +64,11 @@ class Instrument(ast.NodeTransformer):
 
     def visit_Compare(self, node):
         self.generic_visit(node)
+        if len(node.ops) == 1 and isinstance(node.ops[0], (ast.Is, ast.IsNot)):
+            fn = "_ms_is" if isinstance(node.ops[0], ast.Is) else "_ms_is_not"
+            return ast.copy_location(
+                ast.Call(ast.Name(fn, ast.Load()), [node.left, node.comparators[0]], []), node
+            )
         if len(node.ops) == 1 and isinstance(node.ops[0], (ast.In, ast.NotIn)):
             fn = "_ms_in" if isinstance(node.ops[0], ast.In) else "_ms_not_in"
             return ast.copy_location(
